@@ -938,9 +938,6 @@ fn main() {
             content: "fault-seeded".into(),
         };
         add(c.key(), vcore::in_pool(1, || measure_z(&c)), u64::MAX / 2, 8, true, &|k, i, a| FJob::Z(c.clone(), k, i, a));
-        // SHA-256, one block
-        let c = zbytes(ByteHash::Sha256, 3, "counter");
-        add(c.key(), sizes.get(&c.key()).copied(), tier.pick(400, u64::MAX / 2), 6, thorough, &|k, i, a| FJob::Z(c.clone(), k, i, a));
         // variable-length Poseidon, odd length (the last chunk has a filler slot)
         let c = PoseidonVarCase {
             max: 8,
@@ -978,6 +975,11 @@ fn main() {
             seed,
         };
         add(fs::FsCase::key(&c), sizes.get(&fs::FsCase::key(&c)).copied(), 300, 4, false, &|k, i, a| FJob::ShaVar(c.clone(), k, i, a));
+    }
+    {
+        // SHA-256, one block: a stride in quick, every assignment in thorough (last: it is the longest sweep)
+        let c = zbytes(ByteHash::Sha256, 3, "counter");
+        add(c.key(), sizes.get(&c.key()).copied(), tier.pick(400, u64::MAX / 2), 6, thorough, &|k, i, a| FJob::Z(c.clone(), k, i, a));
     }
     drop(add);
     for n in &stride_notes {
